@@ -27,9 +27,12 @@ func ParseTextStream(scanner *bufio.Scanner) (*BulkElement, error) {
 			if len(text) > 0 {
 				parts := strings.Split(text, ",")
 				for _, part := range parts {
-					parts2 := strings.Split(part, "=")
+					parts2 := strings.SplitN(part, "=", 2)
 					switch parts2[0] {
 					case "ik":
+						if len(parts2) != 2 {
+							return nil, errors.New("invalid header, expected 'ik=<idempotency key>'")
+						}
 						if bulkElement.IdempotencyKey != "" {
 							return nil, errors.New("invalid header, idempotency key already set")
 						}
@@ -48,7 +51,7 @@ func ParseTextStream(scanner *bufio.Scanner) (*BulkElement, error) {
 					bulkElement.Data = TransactionRequest{
 						Script: ledgercontroller.ScriptV1{
 							Script: vm.Script{
-								Plain: plain[:len(plain)-1], // remove last \n
+								Plain: strings.TrimSuffix(plain, "\n"), // remove last \n
 							},
 						},
 					}
@@ -65,7 +68,7 @@ func ParseTextStream(scanner *bufio.Scanner) (*BulkElement, error) {
 				bulkElement.Data = TransactionRequest{
 					Script: ledgercontroller.ScriptV1{
 						Script: vm.Script{
-							Plain: plain[:len(plain)-1], // remove last \n
+							Plain: strings.TrimSuffix(plain, "\n"), // remove last \n
 						},
 					},
 				}
